@@ -16,6 +16,7 @@ import (
 	"sort"
 	"strconv"
 	"strings"
+	"sync"
 
 	"github.com/davecgh/go-spew/spew"
 	"github.com/hashicorp/go-hclog"
@@ -80,8 +81,11 @@ type backend struct {
 
 var _ peerstream.Backend = (*backend)(nil)
 
-func (b *backend) Subscribe(*stream.SubscribeRequest) (*stream.Subscription, error) {
-	return nil, fmt.Errorf("not supported")
+func (b *backend) Subscribe(req *stream.SubscribeRequest) (*stream.Subscription, error) {
+	if b.w.Pub == nil {
+		return nil, fmt.Errorf("not supported")
+	}
+	return b.w.Pub.Subscribe(req)
 }
 func (b *backend) IsLeader() bool                                     { return true }
 func (b *backend) SetLeaderAddress(string)                            {}
@@ -127,6 +131,8 @@ func (b *backend) CatalogDeregister(req *structs.DeregisterRequest) error {
 type World struct {
 	FSM              *fsm.FSM
 	Srv              *peerstream.Server
+	Pub              *stream.EventPublisher // only in end-to-end worlds
+	mu               sync.Mutex             // raft index and FSM.Apply (end-to-end worlds write from several goroutines)
 	idx              uint64
 	msts             map[string]*peerstream.MutableStatus
 	Writes           int
@@ -140,20 +146,29 @@ func init() {
 	netutil.GetAgentBindAddrFunc = netutil.GetMockGetAgentBindAddrFunc("127.0.0.1")
 }
 
-func NewWorld(peers []string) (*World, error) {
+func NewWorld(peers []string) (*World, error) { return newWorld(peers, nil, true, "dc1") }
+
+// newWorld: with a publisher the store emits change events into it (what a real server does) and
+// Backend.Subscribe serves them - needed on the exporting side of an end-to-end stream.
+func newWorld(peers []string, pub *stream.EventPublisher, connect bool, dc string) (*World, error) {
 	logger := hclog.New(&hclog.LoggerOptions{Output: io.Discard, Level: hclog.Off})
-	w := &World{msts: map[string]*peerstream.MutableStatus{}, idx: 10}
+	w := &World{msts: map[string]*peerstream.MutableStatus{}, idx: 10, Pub: pub}
 	w.FSM = fsm.NewFromDeps(fsm.Deps{
-		Logger:         logger,
-		NewStateStore:  func() *state.Store { return state.NewStateStore(nil) },
+		Logger: logger,
+		NewStateStore: func() *state.Store {
+			if pub != nil {
+				return state.NewStateStoreWithEventPublisher(nil, pub)
+			}
+			return state.NewStateStore(nil)
+		},
 		StorageBackend: fsm.NullStorageBackend,
 	})
 	w.Srv = peerstream.NewServer(peerstream.Config{
 		Backend:        &backend{w: w},
 		GetStore:       func() peerstream.StateStore { return w.FSM.State() },
 		Logger:         logger,
-		Datacenter:     "dc1",
-		ConnectEnabled: true,
+		Datacenter:     dc,
+		ConnectEnabled: connect,
 	})
 	// what a real leader sets once all servers support virtual IPs (leader_connect / system metadata)
 	w.idx++
@@ -199,6 +214,8 @@ func (w *World) apply(t structs.MessageType, req any) (err error) {
 	if err != nil {
 		return err
 	}
+	w.mu.Lock()
+	defer w.mu.Unlock()
 	w.idx++
 	raw := w.FSM.Apply(&raft.Log{Index: w.idx, Data: buf, Type: raft.LogCommand})
 	if e, ok := raw.(error); ok {
